@@ -452,26 +452,119 @@ struct Ctx {
     mode: char,
 }
 
-fn feats(f: &Feat) -> String {
-    let mut v = vec![];
-    if f.bcast01 {
-        v.push("bcast01");
-    }
-    if f.negceil {
-        v.push("negceil");
-    }
-    let mut big = false;
-    for (i, a) in f.divisors.iter().enumerate() {
-        for b in &f.divisors[i + 1..] {
-            if (*a as i128) * (*b as i128) > i32::MAX as i128 {
-                big = true;
+/// One rewrite step of `simplify_canonical` that changes the value on its own.
+struct Culprit {
+    /// "negceil" | "bcast01" | "plain"
+    class: &'static str,
+    /// the node after its operands were simplified, plus the operand values that explain it
+    shown: String,
+}
+
+/// Locate the rewrite steps that are wrong *by themselves* for this assignment.
+/// `simplify_canonical(op(a, b))` is `step(simplify_canonical(a), simplify_canonical(b))`, so for every
+/// node of `t` (the tree `simplify_canonical` is applied to) the step is checked in isolation: the
+/// reference value of the step's output must equal `op` applied to the reference values of the
+/// simplified operands.  A failing step is classified as one of the two known findings only when it
+/// is exactly the described rewrite:
+///   negceil — a DivCeil node whose simplified dividend is a DivCeil and one of the two divisors is negative
+///   bcast01 — a Broadcast node one of whose simplified operands is a constant and one of whose operand values is 0
+/// anything else is `plain`.
+fn culprits(t: &T, env: &[Option<i32>], acc: &mut Vec<Culprit>) {
+    let refval = |e: &SymExpr| {
+        let mut f = Feat::default();
+        ideal(&unbuild(e), env, &mut f, None)
+    };
+    let sc = |t: &T| hcommon::catch(|| hook::simplify_canonical(build(t))).ok();
+    match t {
+        T::Val(_) | T::Var(..) => {}
+        T::Neg(a) => {
+            culprits(a, env, acc);
+            if let (Some(la), Some(whole)) = (sc(a), sc(t)) {
+                if let Ideal::Ok(x) = refval(&la) {
+                    let mut f = Feat::default();
+                    let expected = ideal(&neg(T::Val(x as i32)), env, &mut f, None);
+                    let actual = refval(&whole);
+                    if let Ideal::Ok(_) = expected {
+                        if actual != expected && actual != Ideal::Ovf {
+                            acc.push(Culprit { class: "plain", shown: format!("n {}", shows(&unbuild(&la))) });
+                        }
+                    }
+                }
             }
         }
+        T::Bin(o, a, b) => {
+            culprits(a, env, acc);
+            culprits(b, env, acc);
+            let (Some(la), Some(lb), Some(whole)) = (sc(a), sc(b), sc(t)) else { return };
+            let (Ideal::Ok(x), Ideal::Ok(y)) = (refval(&la), refval(&lb)) else { return };
+            let mut f = Feat::default();
+            let expected = ideal(&bin(*o, T::Val(x as i32), T::Val(y as i32)), env, &mut f, None);
+            let Ideal::Ok(_) = expected else { return };
+            let actual = refval(&whole);
+            if actual == expected || actual == Ideal::Ovf {
+                return;
+            }
+            let node = format!("{} {} {}", OPS[*o as usize], shows(&unbuild(&la)), shows(&unbuild(&lb)));
+            let mut class = "plain";
+            let mut why = String::new();
+            if *o == CEIL {
+                if let SymExpr::DivCeil(_, c1) = &la {
+                    if let Ideal::Ok(d1) = refval(c1) {
+                        if d1 < 0 || y < 0 {
+                            class = "negceil";
+                            why = format!(" [d1={d1} d2={y}]");
+                        }
+                    }
+                }
+            } else if *o == BC {
+                // T1 is proved for operands >= 1, so a wrong Broadcast step inside the domain involves
+                // an operand of value 0; the finding is about the arms that return / drop a constant.
+                let has_const = matches!(la, SymExpr::Value(_)) || matches!(lb, SymExpr::Value(_));
+                if (x == 0 || y == 0) && has_const {
+                    class = "bcast01";
+                    why = format!(" [x={x} y={y}]");
+                }
+            }
+            acc.push(Culprit { class, shown: format!("{node}{why}") });
+        }
     }
-    if big {
-        v.push("bigdivisors");
+}
+
+/// `[classes]{culprit;culprit}`; the two known findings are only named when *every* wrong step of the
+/// case is one of them, otherwise the tag contains `plain` (or `unlocated`) and no finding matches.
+fn diagnose(t: &T, env: &[Option<i32>]) -> (bool, String) {
+    let mut cs = vec![];
+    culprits(t, env, &mut cs);
+    if cs.is_empty() {
+        return (false, "[unlocated]{}".into());
     }
-    if v.is_empty() { "plain".into() } else { v.join("+") }
+    let mut classes: Vec<&str> = cs.iter().map(|c| c.class).collect();
+    classes.sort();
+    classes.dedup();
+    let known = !classes.contains(&"plain");
+    let shown: Vec<String> = cs.iter().map(|c| c.shown.clone()).collect();
+    (known, format!("[{}]{{{}}}", classes.join("+"), shown.join(";")))
+}
+
+/// All failures of one request: those explained completely by a known finding, and the others.
+/// The others are reported first, so a known finding never hides them.
+#[derive(Default)]
+struct Fails {
+    known: Vec<String>,
+    other: Vec<String>,
+}
+
+impl Fails {
+    fn report(&self) -> Option<String> {
+        let (first, n) = if !self.other.is_empty() {
+            (&self.other[0], self.other.len())
+        } else if !self.known.is_empty() {
+            (&self.known[0], self.known.len())
+        } else {
+            return None;
+        };
+        Some(if n > 1 { format!("{first} (+{} more of this kind)", n - 1) } else { first.clone() })
+    }
 }
 
 fn case_x(out: &mut Out, cx: &Ctx, t: &T, envs: &[Vec<Option<i32>>], tag: &str) {
@@ -484,12 +577,9 @@ fn case_x(out: &mut Out, cx: &Ctx, t: &T, envs: &[Vec<Option<i32>>], tag: &str) 
     let canon = hcommon::catch(|| hook::canonicalize(&e));
     let simp = hcommon::catch(|| e.simplify());
     let rp = hcommon::catch(|| (e.range(), e.is_positive()));
-    let mut fail: Option<String> = None;
-    let mut setfail = |m: String| {
-        if fail.is_none() {
-            fail = Some(m);
-        }
-    };
+    let mut fails = Fails::default();
+    let mut known_fails: Vec<String> = vec![];
+    let mut setfail = |m: String| fails.other.push(m);
     let c_s = match &canon {
         Ok(c) => shows(&unbuild(c)),
         Err(_) => "panic".into(),
@@ -546,12 +636,17 @@ fn case_x(out: &mut Out, cx: &Ctx, t: &T, envs: &[Vec<Option<i32>>], tag: &str) 
                             if ideal(&unbuild(sx), env, &mut f2, None) == Ideal::Ovf {
                                 out.bucket("simp_eval_moves_overflow");
                             } else {
-                                setfail(format!(
-                                    "simplify-changes-value[{}]: {v} -> {} env={}",
-                                    feats(&f),
+                                // which rewrite step is wrong?  (located on the canonicalised tree)
+                                let (known, diag) = match &canon {
+                                    Ok(c) => diagnose(&unbuild(c), env),
+                                    Err(_) => (false, "[unlocated]{}".into()),
+                                };
+                                let m = format!(
+                                    "simplify-changes-value{diag}: {v} -> {} env={}",
                                     show_res(rs.clone()),
                                     show_env(env)
-                                ));
+                                );
+                                if known { known_fails.push(m) } else { setfail(m) }
                             }
                         } else {
                             out.bucket("simp_value_preserved");
@@ -559,7 +654,7 @@ fn case_x(out: &mut Out, cx: &Ctx, t: &T, envs: &[Vec<Option<i32>>], tag: &str) 
                     }
                     _ => {
                         if cx.mode == 'w' {
-                            setfail(format!("simplify-panics[{}] although eval is in range, env={}", feats(&f), show_env(env)));
+                            setfail(format!("simplify-panics although eval is in range, env={}", show_env(env)));
                         } else {
                             out.bucket("simp_panics_checked_build");
                         }
@@ -575,14 +670,18 @@ fn case_x(out: &mut Out, cx: &Ctx, t: &T, envs: &[Vec<Option<i32>>], tag: &str) 
     out.bucket(&format!("depth{}", depth(t)));
     let changed = s_s != shows(t);
     out.bucket(if s_s == "panic" { "simp_panic" } else if changed { "simp_changed" } else { "simp_unchanged" });
-    out.case(&req, &ans, fail.as_deref(), changed && any_valid && depth(t) >= 2);
+    fails.known = known_fails;
+    if !fails.known.is_empty() {
+        out.bucket(if fails.other.is_empty() { "fail_known_only" } else { "fail_known_and_other" });
+    }
+    out.case(&req, &ans, fails.report().as_deref(), changed && any_valid && depth(t) >= 2);
 }
 
 fn case_z(out: &mut Out, cx: &Ctx, t: &T, envs: &[Vec<Option<i32>>]) {
     let e = build(t);
     let req = format!("Z {} {}", cx.mode, shows(t));
     let simp = hcommon::catch(|| hook::simplify_canonical(e.clone()));
-    let mut fail = None;
+    let mut fails = Fails::default();
     let ans = match &simp {
         Ok(s) => format!("S={}", shows(&unbuild(s))),
         Err(_) => "S=panic".into(),
@@ -597,20 +696,21 @@ fn case_z(out: &mut Out, cx: &Ctx, t: &T, envs: &[Vec<Option<i32>>]) {
                 let rs = real_eval(s, env);
                 if rs != Ok(Ok(v as i32)) {
                     let mut f2 = Feat::default();
-                    if ideal(&unbuild(s), env, &mut f2, None) != Ideal::Ovf && fail.is_none() {
-                        fail = Some(format!(
-                            "simplify_canonical-changes-value[{}]: {v} -> {} env={}",
-                            feats(&f),
+                    if ideal(&unbuild(s), env, &mut f2, None) != Ideal::Ovf {
+                        let (known, diag) = diagnose(t, env);
+                        let m = format!(
+                            "simplify_canonical-changes-value{diag}: {v} -> {} env={}",
                             show_res(rs),
                             show_env(env)
-                        ));
+                        );
+                        if known { fails.known.push(m) } else { fails.other.push(m) }
                     }
                 }
             }
         }
     }
     out.bucket("gen_simplify_canonical_direct");
-    out.case(&req, &ans, fail.as_deref(), depth(t) >= 2);
+    out.case(&req, &ans, fails.report().as_deref(), depth(t) >= 2);
 }
 
 fn case_f(out: &mut Out, l: &T, r: &T, envs: &[Vec<Option<i32>>]) {
